@@ -21,10 +21,16 @@ Scrtm == {"none", "sibling", "suffix", "both", "garbage", "emptyfile"}
 Ids == {"unset", "uuid", "bad"}
 CommitLens == {0, 19, 20, 32}
 SvsmMeas == {"none", "hex48", "hex48_ws", "hex47", "nothex", "missing"}
+\* --tdx_machine_shapes spelled: not at all, once with one shape, once with a comma list of two,
+\* twice with one shape each, once with a comma list of two and once with a third shape
+ShapeSpellings == {"none", "one", "comma", "repeated", "mixed"}
+ShapeCount(sp) == CASE sp = "none" -> 0 [] sp = "one" -> 1 [] sp \in {"comma", "repeated"} -> 2 [] OTHER -> 3
 
 Rows == {r \in [uefi : Uefi, scrtm : Scrtm, addSnp : BOOLEAN, addTdx : BOOLEAN, family : Ids, image : Ids,
-                commit : CommitLens, exists : BOOLEAN, svsm : SvsmMeas] :
+                commit : CommitLens, exists : BOOLEAN, svsm : SvsmMeas, shapes : ShapeSpellings] :
            /\ (r.uefi # "fd" => r.scrtm = "none" /\ ~r.exists)
+           /\ (r.shapes # "none" => r.uefi = "fd" /\ r.scrtm \in {"none", "sibling"} /\ r.family # "bad" /\ r.image = "unset"
+                                     /\ r.commit \in {0, 20} /\ r.svsm = "none")
            /\ (~r.addSnp => r.family \in {"unset", "bad"} /\ r.image = "unset")}
 
 \* the version the command reads: the first of the two candidate files that can be read wins; an
@@ -50,13 +56,15 @@ Initialise(r) ==
 
 Decide(r) ==
   LET v == Validate(r) IN
-  IF v # "ok" THEN [stage |-> "validate", res |-> v, snp |-> FALSE, tdx |-> FALSE, svn |-> 0, svsm |-> FALSE, imageRead |-> FALSE]
+  IF v # "ok" THEN [stage |-> "validate", res |-> v, snp |-> FALSE, tdx |-> FALSE, svn |-> 0, svsm |-> FALSE, imageRead |-> FALSE, nshapes |-> 0]
   ELSE LET i == Initialise(r) IN
        [stage |-> IF i = "ok" THEN "run" ELSE "init", res |-> i,
         snp |-> r.addSnp, tdx |-> r.addTdx,
         svn |-> IF HasVersion(r) /\ (r.addSnp \/ r.addTdx) THEN Version(r) ELSE 0,
         svsm |-> (i = "ok" /\ r.svsm \in {"hex48", "hex48_ws"}),
-        imageRead |-> r.exists]
+        imageRead |-> r.exists,
+        \* a comma list names several shapes, as does repeating the flag; without --add_tdx the list is dropped
+        nshapes |-> IF r.addTdx THEN ShapeCount(r.shapes) ELSE 0]
 
 Init == row \in Rows /\ out = [stage |-> "pending"]
 Step == out.stage = "pending" /\ out' = Decide(row) /\ UNCHANGED row
@@ -68,5 +76,7 @@ OnlyRequested == out.stage = "run" => (out.snp <=> row.addSnp) /\ (out.tdx <=> r
 RefusedBeforeReading == out.stage = "validate" => ~out.imageRead /\ ~out.svsm
 \* the version comes from the file next to the image, never from anywhere else
 SvnFromFile == out.stage = "run" /\ out.svn # 0 => HasVersion(row) /\ out.svn = Version(row)
+\* every shape named on the command line, however spelled, is one machine shape of the request
+ShapesAllNamed == out.stage = "run" /\ row.addTdx => out.nshapes = ShapeCount(row.shapes)
 Emit == out.stage # "pending" => PrintT(<<"VCASE", ToJson([row |-> row, out |-> out])>>)
 =============================================================================
